@@ -41,13 +41,20 @@ def mutable_globals():
                         mut = isinstance(v, (ast.Dict, ast.List, ast.Set)) and not (isinstance(v, ast.List) and prefix)  # class-level lists like _parameters are constants
                         if isinstance(v, ast.Call):
                             fnm = v.func.attr if isinstance(v.func, ast.Attribute) else getattr(v.func, "id", "")
-                            mut = fnm in ("LRU", "WeakValueDictionary", "WeakKeyDictionary", "defaultdict", "dict", "set", "OrderedDict")
+                            mut = fnm in ("LRU", "WeakValueDictionary", "WeakKeyDictionary", "WeakSet", "defaultdict", "dict", "set", "list", "OrderedDict",
+                                          "deque", "Counter", "ChainMap") or fnm.endswith(("Cache", "LRU", "Dict"))
                         if isinstance(v, ast.Dict) and prefix:
                             mut = False   # class-level dict literals (_defaults ...) are constants by convention
                         if mut and not node.targets[0].id.isupper() or (mut and node.targets[0].id in ("_STATS_CACHE",)):
                             found[prefix + node.targets[0].id] = os.path.relpath(os.path.join(dp, f), root)
                     elif isinstance(node, ast.ClassDef):
                         scan(node.body, prefix + node.name + ".")
+                    elif isinstance(node, (ast.FunctionDef, ast.AsyncFunctionDef)):
+                        # memo tables: functions memoized for the life of the process
+                        for d in node.decorator_list:
+                            dn_ = ast.unparse(d.func if isinstance(d, ast.Call) else d)
+                            if dn_.split(".")[-1] in ("lru_cache", "cache"):
+                                found[prefix + node.name + "@" + dn_.split(".")[-1]] = os.path.relpath(os.path.join(dp, f), root)
             scan(tree.body, "")
     # constants that are never mutated (tables of names) are excluded by hand-review of the discovered list below
     return found
@@ -76,6 +83,29 @@ def global_reads(cls, meth, globs):
             out.append(names[node.id])
         elif isinstance(node, ast.Attribute) and node.attr in names and "." in names[node.attr]:
             out.append(names[node.attr])
+    return sorted(set(out))
+
+
+def function_global_reads(globs):
+    """(file:function, global) for every module-level function of dask_expr/** that mentions a discovered mutable global
+    (class methods are covered per class by global_reads; `global x` / nested functions included)."""
+    import dask_expr
+    root = os.path.dirname(dask_expr.__file__)
+    names = {g.split(".")[-1].split("@")[0]: g for g in globs if "@" not in g}
+    out = []
+    for dp, dn, fn in os.walk(root):
+        if "tests" in dp:
+            continue
+        for f in sorted(fn):
+            if not f.endswith(".py"):
+                continue
+            rel = os.path.relpath(os.path.join(dp, f), root)
+            tree = ast.parse(open(os.path.join(dp, f)).read())
+            for node in tree.body:
+                if isinstance(node, (ast.FunctionDef, ast.AsyncFunctionDef)):
+                    for sub in ast.walk(node):
+                        if isinstance(sub, ast.Name) and sub.id in names and globs[names[sub.id]] == rel:
+                            out.append((rel + ":" + node.name, names[sub.id]))
     return sorted(set(out))
 
 
@@ -202,6 +232,10 @@ def main():
             "true" if issubclass(c, Elemwise) else "false", "true" if issubclass(c, Blockwise) else "false",
             "; ".join(coq_str(d) for d in defines), "; ".join("(%s, %s)" % (coq_str(a), coq_str(b)) for a, b in reads),
             "true" if token_has_class(c) else "false"))
+    fgr = function_global_reads(globs)
+    lines.append("Definition function_global_reads : list (string * string) := [")
+    lines.append(";\n".join("  (%s, %s)" % (coq_str(a), coq_str(b)) for a, b in fgr))
+    lines.append("].\n")
     raws = raw_divisions_calls()
     lines.append("Definition raw_divisions_calls : list (string * (string * string)) := [")
     lines.append(";\n".join("  (%s, (%s, %s))" % (coq_str(a), coq_str(b), coq_str(c)) for a, b, c in raws))
